@@ -297,8 +297,18 @@ def st_FunctionDef(eng, node, st):
 
 
 def st_Try(eng, node, st):
-    if node.finalbody or node.orelse:
-        raise Unsupported("try/finally/else at line %d" % node.lineno)
+    if node.orelse:
+        raise Unsupported("try/else at line %d" % node.lineno)
+    if node.finalbody:
+        # try: BODY (except ...) finally: FIN  ==  run BODY(+handlers); on every outcome run FIN, then continue the outcome
+        inner = ast.Try(body=node.body, handlers=node.handlers, orelse=[], finalbody=[])
+        ast.copy_location(inner, node)
+        outs0 = st_Try(eng, inner, st) if node.handlers else exec_block(eng, node.body, st)
+        res = []
+        for (o, s_) in outs0:
+            for (o2, s2) in exec_block(eng, node.finalbody, s_):
+                res.append((o if o2[0] == 'normal' else o2, s2))
+        return res
     handled = set()
     for h in node.handlers:
         if not isinstance(h.type, ast.Name):
